@@ -23,6 +23,32 @@ pub struct BlockTranslationResult {
     successors: Vec<(u64, Option<Expression>)>,
 }
 
+/// Successors become the edges of the function's graph, which holds one edge
+/// per pair of blocks: successors naming the same address (a conditional branch
+/// to the next instruction) are merged into one, taken when any of them is.
+fn merge_successors(
+    successors: Vec<(u64, Option<Expression>)>,
+) -> Vec<(u64, Option<Expression>)> {
+    let mut merged: Vec<(u64, Option<Expression>)> = Vec::new();
+    for (address, condition) in successors {
+        match merged.iter_mut().find(|successor| successor.0 == address) {
+            None => merged.push((address, condition)),
+            Some(successor) => {
+                successor.1 = match (successor.1.take(), condition) {
+                    (Some(lhs), Some(rhs)) => match Expression::or(lhs.clone(), rhs) {
+                        Ok(either) => Some(either),
+                        // guards that cannot be combined: keep the first one
+                        Err(_) => Some(lhs),
+                    },
+                    // an unguarded successor is always taken
+                    _ => None,
+                }
+            }
+        }
+    }
+    merged
+}
+
 impl BlockTranslationResult {
     /// Create a new `BlockTranslationResult`.
     ///
@@ -41,7 +67,7 @@ impl BlockTranslationResult {
             instructions,
             address,
             length,
-            successors,
+            successors: merge_successors(successors),
         }
     }
 
